@@ -76,6 +76,12 @@ def rcross(a, b): return [a[1] * b[2] - a[2] * b[1], a[2] * b[0] - a[0] * b[2], 
 def rdet3(a, b, c):
     return a[0] * b[1] * c[2] + a[1] * b[2] * c[0] + a[2] * b[0] * c[1] - a[2] * b[1] * c[0] - a[1] * b[0] * c[2] - a[0] * b[2] * c[1]
 def R(o): return [v.r for v in o]
+_RGoal = RGoal
+def _rv(x): return z3.RealVal(x) if isinstance(x, (int, float)) else x
+def RGoal(kind, l, r, guard=None):
+    """harness.RGoal with Python numbers coerced to z3 reals (harness.real_replay evaluates both sides with z3.simplify: a bare 0 or 1 made every replay fail)"""
+    return _RGoal(kind, _rv(l), _rv(r), guard)
+def REq(l, r): return RGoal('eq', l, r)
 def pairs(n): return [(i, j) for i in range(n) for j in range(i + 1, n)]
 
 # ------------------------------------------------------------------ lemma chains over one rounding-erased execution
@@ -123,36 +129,50 @@ class Chain:
             hy.append(s.facts[u])
         return hy
     def lemma(s, label, goal, use=(), hyps=(), gen=(), timeout=None, solver='nra'):
-        """intermediate step: proved (possibly generalised) from the listed hypotheses only; becomes available as fact `label`"""
-        oname = '%s.lemma.%s' % (s.name, label); hy = s._hyps(use, hyps)
-        if hy is None:
-            s.S.rec(name=oname, kind='lemma', functions=s.fnlist, bounds=s.binfo, solver='-', result='skipped', time_s=0.0, status='inconclusive', mandatory=s.mandatory, note='an earlier step of the chain is missing')
-            if s.mandatory: s.S.inconclusive.append(oname + ' [earlier step missing]')
-            return False
-        tt = s._gen(hy + [goal], gen)
-        r, m = s.S.prove(oname, tt[-1], tt[:-1], timeout=timeout or s.S.cap(20, 60), solver=solver, kind='lemma', functions=s.fnlist, mandatory=s.mandatory,
-                         bounds=s.binfo + ('; generalised over %d sub-terms' % len(gen) if gen else ''), replay=lambda m_: ('no-replay (lemma over internal terms)', {}))
-        if r == 'unsat': s.facts[label] = goal; return True
-        return False
-    def _final(s, oname, goal, kind, use, hyps, gen, spec_fn, timeout, solver):
+        """intermediate step: proved (possibly generalised) from the listed hypotheses only; becomes available as fact `label`.  A step that does not go through is
+        recorded as optional: it is a means, the user-facing goals that needed it are then decided by their direct queries."""
+        oname = '%s.lemma.%s' % (s.name, label); hy = s._hyps(use, hyps); r, dt, used = 'skipped', 0.0, '-'
+        if hy is not None:
+            tt = s._gen(hy + [goal], gen)
+            try: r, m, dt, used = s.S.query(tt[:-1] + [z3.Not(tt[-1])], timeout or s.S.cap(20, 60), solver)
+            except z3.Z3Exception as e: r, used = 'unknown', '%s error: %s' % (solver, e)
+        ok = r == 'unsat'
+        s.S.rec(name=oname, kind='lemma', functions=s.fnlist, bounds=s.binfo + ('; generalised over %d sub-terms' % len(gen) if gen else ''), solver=used, result=r, time_s=round(dt, 3),
+                status='discharged' if ok else 'not-established', mandatory=ok and s.mandatory, note='' if hy is not None else 'an earlier step of the chain is missing')
+        if ok: s.facts[label] = goal
+        return ok
+    def _final(s, oname, goal, kind, use, hyps, gen, spec_fn, timeout, solver, rgoal=None):
+        def done(r, dt, used, how, note=''):
+            s.S.rec(name=oname, kind=kind, functions=s.fnlist, bounds=s.binfo + how, solver=used, result=r, time_s=round(dt, 3), status='discharged', mandatory=s.mandatory, note=note)
         hy = s._hyps(use, hyps) if (use or hyps or gen) else None
         if hy is not None:
             tt = s._gen(hy + [goal], gen)
             try: r, m, dt, used = s.S.query(tt[:-1] + [z3.Not(tt[-1])], timeout or s.S.cap(20, 60), solver)
             except z3.Z3Exception: r, dt, used = 'unknown', 0.0, solver
-            if r == 'unsat':
-                s.S.rec(name=oname, kind=kind, functions=s.fnlist, bounds=s.binfo + '; via lemma chain' + (' generalised over %d sub-terms' % len(gen) if gen else ''), solver=used, result=r, time_s=round(dt, 3),
-                        status='discharged', mandatory=s.mandatory, note='uses ' + ','.join(use))
-                return True
-        # the chain did not close: direct query over all hypotheses, counterexamples replayed natively
-        s.S._prove_known(oname, goal, s.base, s.res, (), timeout=s.tm, solver=s.direct_solver, kind=kind, functions=s.fnlist, bounds=s.binfo, spec_fn=spec_fn, pre_fn=s.prefn,
+            if r == 'unsat': done(r, dt, used, '; via lemma chain' + (' generalised over %d sub-terms' % len(gen) if gen else ''), 'uses ' + ','.join(use)); return True
+        # the chain did not close (or there is none): direct query over all hypotheses
+        try: r, m, dt, used = s.S.query(s.base + [z3.Not(goal)], s.tm, s.direct_solver, s.vars)
+        except z3.Z3Exception: r, dt, used = 'unknown', 0.0, s.direct_solver
+        if r == 'unsat': done(r, dt, used, ''); return True
+        # not proved: look for a ROBUST counterexample first (bounded inputs, the atom violated by a margin) - nlsat otherwise returns models that violate an equality by 1e-9 and do not
+        # survive the float replay.  The extra constraints only narrow the search; any model is a counterexample of the unrestricted obligation.
+        hy = s.base
+        if rgoal is not None:
+            l, r_ = rgoal.l, rgoal.r; half = z3.RealVal('1/2')
+            far = {'eq': z3.Or(l - r_ > half, r_ - l > half), 'le': l - r_ > half, 'lt': l - r_ > half, 'ge': r_ - l > half, 'gt': r_ - l > half}[rgoal.kind]
+            if rgoal.guard is not None: far = z3.And(rgoal.guard, far)
+            box = [z3.And(v >= -4, v <= 4) for v in s.vars if z3.is_real(v)]
+            try: r2, m2, dt2, used2 = s.S.query(s.base + box + [far], s.S.cap(20, 60), s.direct_solver, s.vars)
+            except z3.Z3Exception: r2 = 'unknown'
+            if r2 == 'sat': hy = s.base + box + [far]
+        s.S._prove_known(oname, goal, hy, s.res, (), timeout=s.tm if r != 'unknown' or hy is not s.base else 1, solver=s.direct_solver, kind=kind, functions=s.fnlist, bounds=s.binfo, spec_fn=spec_fn, pre_fn=s.prefn,
                          unit=U, fname=s.fname, mode='real', vars_=s.vars, mandatory=s.mandatory)
         return False
     def goals(s, spec, recipes=None, timeout=None, solver='nra'):
         """spec(i, o) -> [(label, RGoal)] as for check_fn; recipes[label] = dict(use=[...], hyps=[...], gen=[...]) (labels without a recipe: direct query)"""
         for label, g in spec(s.i, s.o):
             rc = (recipes or {}).get(label, {})
-            s._final('%s.%s' % (s.name, label), goal_term(g), 'spec', rc.get('use', ()), rc.get('hyps', ()), rc.get('gen', ()), (spec, label), timeout, solver)
+            s._final('%s.%s' % (s.name, label), goal_term(g), 'spec', rc.get('use', ()), rc.get('hyps', ()), rc.get('gen', ()), (spec, label), timeout, solver, rgoal=g if isinstance(g, _RGoal) else None)
     def side(s, recipe=None, timeout=None, solver='nra'):
         """the executor's own obligations (sqrt of a negative, division by zero ...), one by one; recipe(kind, descr, cond, k) -> dict(use, hyps, gen) | None"""
         for k, (kind, cond, d) in enumerate(s.res.obligations):
